@@ -1,0 +1,24 @@
+//go:build verif
+
+package bitcoin
+
+import "gitlab.com/yawning/secp256k1-voi"
+
+// Verification hooks: thin forwarders to unexported helpers, only built
+// with `-tags verif`.  No logic lives here.
+
+// VerifSignSchnorr forwards to signSchnorr.
+func VerifSignSchnorr(auxRand *[32]byte, sk *SchnorrPrivateKey, msg []byte) ([]byte, error) {
+	return signSchnorr(auxRand, sk, msg)
+}
+
+// VerifVerifySchnorrSelf forwards to verifySchnorrSelf.
+func VerifVerifySchnorrSelf(d *secp256k1.Scalar, pkXBytes, msg, sig []byte) bool {
+	return verifySchnorrSelf(d, pkXBytes, msg, sig)
+}
+
+// VerifSchnorrSigningScalar returns a copy of the (possibly negated)
+// signing scalar d.
+func (k *SchnorrPrivateKey) VerifSchnorrSigningScalar() *secp256k1.Scalar {
+	return secp256k1.NewScalarFrom(k.d)
+}
